@@ -8,6 +8,24 @@ import re
 from collections import defaultdict
 
 
+# An ordered std map/set used where a hash map/set was used (or the reverse) is the same collection as far as every rule
+# except C14's hash-order analysis is concerned; callee paths are rendered with the hash names so that one spelling of a
+# rule covers both.  C14 switches this off.
+NORMALISE_ORDERED_COLLECTIONS = True
+_COLL = (("std::collections::BTreeMap::<K, V, A>", "std::collections::HashMap::<K, V, S, A>"), ("std::collections::BTreeMap::<K, V>", "std::collections::HashMap::<K, V>"),
+         ("std::collections::BTreeSet::<T, A>", "std::collections::HashSet::<T, S, A>"), ("std::collections::BTreeSet::<T>", "std::collections::HashSet::<T>"),
+         ("std::collections::BTreeMap<K, V, A>", "std::collections::HashMap<K, V, S, A>"), ("std::collections::BTreeSet<T, A>", "std::collections::HashSet<T, S, A>"),
+         ("std::collections::btree_map::", "std::collections::hash_map::"), ("std::collections::btree_set::", "std::collections::hash_set::"))
+
+
+def norm_collections(p):
+    if not NORMALISE_ORDERED_COLLECTIONS or p is None or "BTree" not in p and "btree_" not in p:
+        return p
+    for a, b in _COLL:
+        p = p.replace(a, b)
+    return p
+
+
 def parse_at(at):
     """'kiki/src/x.rs:12:5: 14:2' -> (file, line)"""
     m = re.match(r"^(.*?):(\d+):(\d+): (\d+):(\d+)$", at)
@@ -26,9 +44,9 @@ class Call:
         ce = term["callee"]
         self.callee = ce
         self.resolved = ce.get("resolved") if ce else None
-        self.path = ce["path"] if ce else None  # declared callee path
+        self.path = norm_collections(ce["path"]) if ce else None  # declared callee path
         r = self.resolved or ce
-        self.rpath = r["path"] if r else None  # resolved (or declared) callee path
+        self.rpath = norm_collections(r["path"]) if r else None  # resolved (or declared) callee path
         self.local = bool(r and r["local"])
         self.rkey = r["key"] if r else None
         self.args = term["args"]
@@ -854,3 +872,94 @@ def short_path(p):
     q = _strip_generics(p).replace("::::", "::")
     parts = [x for x in q.split("::") if x]
     return "::".join(parts[-2:]) if len(parts) >= 2 else q
+
+
+def change_flag_condition(ce):
+    """a loop-exit test on the boolean change flag returned by a local step function, in any of its spellings:
+    `f(..).0`, `f(..).changed`, its negation, or the loop-carried form `phi[f(..).flag | const(true)]` of a
+    `while changed { changed = f(..).flag }`.  Returns (list of step-function names, negated) or None."""
+    inner = ce
+    neg = inner.startswith("Not(") and inner.endswith(")")
+    if neg:
+        inner = inner[4:-1]
+    alts = inner[4:-1].split(" | ") if inner.startswith("phi[") and inner.endswith("]") else [inner]
+    names = []
+    for a_ in alts:
+        if a_ in ("const(true)",):
+            continue
+        m = re.match(r"^\w+::(\w+)\(.*\)\.\w+$", a_)
+        if not m:
+            return None
+        names.append(m.group(1))
+    return (names, neg) if names else None
+
+
+def _split_args(s, i):
+    """s[i] is the '(' of a call: return (list of top-level argument strings, index after the matching ')')"""
+    depth = 0
+    args, cur = [], []
+    j = i
+    while j < len(s):
+        ch = s[j]
+        if ch in "([{":
+            depth += 1
+            if depth > 1:
+                cur.append(ch)
+        elif ch in ")]}":
+            depth -= 1
+            if depth == 0:
+                a = "".join(cur).strip()
+                if a:
+                    args.append(a)
+                return args, j + 1
+            cur.append(ch)
+        elif ch == "," and depth == 1:
+            args.append("".join(cur).strip())
+            cur = []
+        else:
+            cur.append(ch)
+        j += 1
+    return None, len(s)
+
+
+def inline_helpers(mir, s, max_rounds=4, skip=()):
+    """expand calls of small local helper functions in a canonical value string: `T::width(param1)` becomes the
+    helper's own (loop-free, branch-free) result with its parameters replaced by the arguments.  This makes value rules
+    insensitive to extracting or inlining a helper.  Helpers with branches, loops or ambiguous names are left alone."""
+    if not hasattr(mir, "_short_index"):
+        idx = {}
+        for f in mir.fns.values():
+            if f.kind in ("Fn", "AssocFn") and not f.derived:
+                idx.setdefault(short_path(f.path), []).append(f)
+        mir._short_index = {k: v[0] for k, v in idx.items() if len(v) == 1}
+        mir._ret_cache = {}
+    for _ in range(max_rounds):
+        changed = False
+        for m in list(re.finditer(r"((?:\w+::)+\w+)\(", s)):
+            name = m.group(1)
+            f = mir._short_index.get(name)
+            if f is None or name in skip:
+                continue
+            if f.key not in mir._ret_cache:
+                ok = not natural_loops(f) and not any(b["term"]["k"] == "switch" for b in f.blocks if not b["cleanup"])
+                r = canon(Exprs(f).local(0)) if ok else None
+                if r is not None and ("phi[" in r or "cycle" in r or "partial(" in r or len(r) > 400 or r.startswith(name + "(")):
+                    r = None
+                mir._ret_cache[f.key] = r
+            r = mir._ret_cache[f.key]
+            if r is None:
+                continue
+            args, end = _split_args(s, m.end() - 1)
+            if args is None or len(args) != len(f.inputs):
+                continue
+            body = re.sub(r"\bparam(\d+)\b", lambda mm: "\x00%d\x00" % int(mm.group(1)), r)
+            for i_, a_ in enumerate(args):
+                body = body.replace("\x00%d\x00" % (i_ + 1), a_)
+            if "\x00" in body:
+                continue
+            s = s[:m.start()] + body + s[end:]
+            changed = True
+            break
+        if not changed:
+            break
+    return s
